@@ -303,7 +303,7 @@ def stage2(mut: dict, props: list[str]) -> dict:
         mut["checks"] = {}
         mut["verdict"] = "survived"
         for pid in props:
-            env = dict(os.environ, ROPT_SRC=str(scratch / "src"))
+            env = dict(os.environ, ROPT_SRC=str(scratch / "src"), VERIF_FAILFAST="1")
             t0 = time.time()
             try:
                 res = subprocess.run([str(VERIF / "run.sh"), pid, "quick", "--no-evidence"], env=env, capture_output=True, text=True,
